@@ -3,6 +3,7 @@
 // threads that own distinct handles to a common payload.
 // Real code: include/nstd/{String,Variant,RefCount,Atomic,HashMap,List,Array}.hpp, Document/Xml.hpp, src/String.cpp, src/Memory.cpp.
 // Stub: scheduler, allocator (arena ledger + shadow), pthread mutex under the mailbox.
+#include <nstd/Debug.hpp>      /* first, as in the library's own sources: the containers then use the VERIFY/ASSERT forms of their placement-new code */
 #include <nstd/String.hpp>
 #include <nstd/Variant.hpp>
 #include <nstd/RefCount.hpp>
@@ -187,7 +188,7 @@ static void mutate(int w, int j, uint64_t kind, uint64_t param) {
     Variant& v = V(p);
     Val child; child.t = (param % 2) ? Val::STR : Val::INT; child.s = gs; child.i = (long)(param % 1000);
     static const char* const collide[4] = {"kamak", "kbmbk", "kcmck", "kdmdk"};   /* same length, first, middle and last character: one hash bucket chain */
-    switch (kind % 20) {   // (assigning a *container* taken from inside the own payload, v = v.toMap()[k].toMap(), is caller misuse as for any container and is not generated)
+    switch (kind % 21) {   // (assigning a *container* taken from inside the own payload, v = v.toMap()[k].toMap(), is caller misuse as for any container and is not generated)
     case 7: { // assign from a handle that lives inside the own payload (e.g. walking down a tree): v = v.toList().front()
       if ((m.t == Val::LIST || m.t == Val::ARR || m.t == Val::MAP) && !m.kids.empty()) { const Variant& cv = v; if (m.t == Val::LIST) v = cv.toList().front(); else if (m.t == Val::ARR) v = cv.toArray()[0]; else v = *cv.toMap().begin(); Val c = m.kids[0].second; m = c; probe("assign_from_nested_handle"); }
       break; }
@@ -218,6 +219,11 @@ static void mutate(int w, int j, uint64_t kind, uint64_t param) {
       case 4: { List<Variant> l; l.append(mkVariant(one)); v = l; m = Val(); m.t = Val::LIST; m.kids.push_back({"", one}); break; }
       case 5: { HashMap<String, Variant> h; h.append(mkString("ck"), mkVariant(one)); v = h; m = Val(); m.t = Val::MAP; m.kids.push_back({"ck", one}); break; } }
       probe("container_assigned"); break; }
+    case 20: { /* append a whole container to the payload's container */
+      Val one; one.t = Val::STR; one.s = gs; Val two; two.t = Val::INT; two.i = (long)(param % 1000);
+      if (m.t == Val::ARR) { Array<Variant> a; a.append(mkVariant(one)); a.append(mkVariant(two)); v.toArray().append(a); m.kids.push_back({"", one}); m.kids.push_back({"", two}); probe("container_appended"); }
+      else if (m.t == Val::LIST) { List<Variant> l; l.append(mkVariant(one)); l.append(mkVariant(two)); v.toList().append(l); m.kids.push_back({"", one}); m.kids.push_back({"", two}); probe("container_appended"); }
+      break; }
     case 19: { /* container-level assignment inside the payload: the array / list / map itself is assigned an empty or a one-element container */
       Val one; one.t = Val::INT; one.i = (long)(param % 1000);
       if (m.t == Val::ARR) { Array<Variant> a; if (param % 2) a.append(mkVariant(one)); v.toArray() = a; m.kids.clear(); if (param % 2) m.kids.push_back({"", one}); }
@@ -387,7 +393,7 @@ static void generate(RunSpec& s, int tier) {
     for (int i = 0; i < n; ++i) {
       Op o; o.task = w; o.a[0] = (int64_t)r(k); o.a[1] = (int64_t)r(k); o.a[2] = (int64_t)r(1000); o.a[3] = (int64_t)r(1000);
       uint64_t c = r(100);
-      if (mapFocus && r(10) < 7) { c = 50; o.a[1] = (int64_t)r(2); bool ins = r(5) < 3; o.a[2] = fam == F_VARIANT ? (int64_t)(20 * r(50) + (ins ? 8 : (r(4) ? 9 : 16 + (int64_t)r(2)))) : (int64_t)(10 * r(50) + (ins ? 5 : 6)); }
+      if (mapFocus && r(10) < 7) { c = 50; o.a[1] = (int64_t)r(2); bool ins = r(5) < 3; o.a[2] = fam == F_VARIANT ? (int64_t)(21 * r(50) + (ins ? 8 : (r(4) ? 9 : 16 + (int64_t)r(2)))) : (int64_t)(10 * r(50) + (ins ? 5 : 6)); }
       o.code = c < 18 ? O_COPY : c < 34 ? O_ASSIGN : c < 42 ? O_RECREATE : c < 66 ? O_MUTATE : c < 74 ? O_SWAP : c < 84 ? O_SEND : c < 94 ? O_RECV : c < 97 ? O_READ : O_WORK;
       if (o.code == O_ASSIGN && r(10) == 0) o.a[1] = o.a[0];
       s.plan.push_back(o);
